@@ -1,6 +1,6 @@
 (* Properties_C01.v — C01: exit status reported exactly, stable, child reaped once.
    Theorems only; proofs are in ProofsPure.v / LibSpec.v. *)
-From Verif Require Import Lib WorldSpec LibSpec ProofsPure.
+From Verif Require Import Lib Build WorldSpec WorldSpec2 LibSpec ProofsPure WaitSpec.
 From Coq Require Import Lia.
 Local Open Scope Z_scope.
 
@@ -48,7 +48,50 @@ Theorem C01_wait_footprint : forall p t,
 Proof. exact emitsR_reproc_wait. Qed.
 Print Assumptions C01_wait_footprint.
 
+(* exact: a wait on a running handle returns a status r >= 0 only by reaping the handle's own
+   child, which at that moment of the call had ended (was a zombie with wait status st); r is the
+   decoded st and is cached, the reap of that pid is the event logged at that moment, and the
+   child's record afterwards is the same record marked reaped -- no zombie remains.  For every
+   well-formed world: every fault plan, latency plan, descriptor table, set of other processes
+   and behaviour of the child.  (Never a status while the child still runs: Running is not Zombie.) *)
+Theorem C01_wait_exact : forall p t w r p' w',
+  wf w -> h_status p = STATUS_IN_PROGRESS -> 0 < h_handle p ->
+  reproc_wait p t w = Ret (r, p') w' -> 0 <= r ->
+  exists st wz,
+    pr_state (get_proc (h_handle p) wz) = Zombie st
+    /\ get_proc (h_handle p) w' = pr_with_state (Reaped st) (get_proc (h_handle p) wz)
+    /\ (exists pre, w_trace wz = pre ++ w_trace w)
+    /\ (exists post ev, w_trace w' = post ++ ev :: w_trace wz /\ e_call ev = CWaitpid /\ e_args ev = [h_handle p]
+                        /\ e_ret ev = h_handle p /\ e_outs ev = [Z.of_N st])
+    /\ r = parse_status (Z.of_N st)
+    /\ h_status p' = r.
+Proof. exact reproc_wait_exact. Qed.
+Print Assumptions C01_wait_exact.
+
 (* non-vacuity *)
+Definition C01_ex_child : proc :=
+  {| pr_parent := 7; pr_kind := KScript; pr_fds := ∅; pr_mask := []; pr_disp := ∅; pr_cwd := [47]; pr_env := [];
+     pr_errno := 0; pr_rlimit := 24; pr_state := Zombie 10752; pr_image := None; pr_script := [];
+     pr_wake := 0; pr_woff := []; pr_seen := []; pr_end := None |}.
+Definition C01_ex_world : world :=
+  let w := build_world 1000 0 7 [(3, {| f_obj := OPipeR 1; f_cloexec := true; f_nonblock := false |})]
+                       [] [] [47] [] 24 [] [(2, 4%positive)] [(1, 5)] [] in
+  w_with_next_pid 9 (w_with_procs (<[8 := C01_ex_child]> (w_procs w)) (set_pipe 1 {| p_buf := []; p_len := 0 |} w)).
+Definition C01_ex_h : rp :=
+  rp_with_status STATUS_IN_PROGRESS (rp_with_pipes (-1) (-1) (-1) 3 (rp_with_handle 8 (rp_new 1))).
+Example C01_ex_wait :
+  wf C01_ex_world /\ h_status C01_ex_h = STATUS_IN_PROGRESS /\ 0 < h_handle C01_ex_h /\
+  exists p' w', reproc_wait C01_ex_h REPROC_INFINITE C01_ex_world = Ret (42, p') w'
+                /\ pr_state (get_proc 8 w') = Reaped 10752.
+Proof.
+  split; [|split; [reflexivity|split; [reflexivity|]]].
+  - split.
+    + eexists. split; [vm_compute; reflexivity|]. split; reflexivity.
+    + intros k [x Hk]. cbn in Hk. apply lookup_insert_Some in Hk. destruct Hk as [[<- _]|[_ Hk]]; [cbn; lia|].
+      apply lookup_singleton_Some in Hk. destruct Hk as [<- _]. cbn. lia.
+  - vm_compute. eexists. eexists. split; reflexivity.
+Qed.
+
 Example C01_ex_codes : parse_status (42 * 256) = 42 /\ parse_status (9 + 128 * 1) = 137 /\ parse_status 15 = 143.
 Proof. vm_compute. auto. Qed.
 Example C01_ex_cached : exists p, 0 <= h_status p /\ h_status p = 143.
